@@ -1315,9 +1315,9 @@ fn fresh_id(rng: &mut Rng, next: &mut u64) -> u64 {
     // vary the number of digits (request and reply sizes differ) while staying unique
     match rng.below(4) {
         0 => *next,
-        1 => 100 + *next,
-        2 => 10_000 + *next,
-        _ => 1_000_000 + *next,
+        1 => 5_000 + *next,
+        2 => 70_000 + *next,
+        _ => 9_000_000 + *next,
     }
 }
 
